@@ -236,6 +236,41 @@ Example c05_shared_registry_instance :
   w_regs (run h w0) = [reg_a128].
 Proof. exact shared_registry_instance. Qed.
 
+(* ---- rfc7797 entry points (and every JWS entry point) keep the caller's registry:
+        `registry is None` => JWSRegistry(algorithms=algorithms) when the header has
+        "b64", construct_registry(algorithms) otherwise; any registry object the
+        caller passes - base class jws.JWSRegistry, the rfc7797 subclass, a subclass
+        of either, built for the call or long-lived - decides the gate with ITS
+        allowed attribute, for signing and verification, with or without "b64",
+        whatever algorithms= says ---- *)
+Theorem c05_7797_registry_kept :
+  (forall w k algorithms r, jws_entry_select w k algorithms (Some r) = r) /\
+  (forall w algorithms, jws_entry_select w (K7797 true) algorithms None = algorithms) /\
+  (forall w algorithms, jws_entry_select w (K7797 false) algorithms None = construct_registry w algorithms) /\
+  (forall w k algorithms c allowed algs,
+     fst (step w (CallJwsSign k algorithms (RFresh c allowed) algs)) =
+     VUnit (runit (gate_all (jws_member_gate w allowed) algs))) /\
+  (forall w k algorithms c allowed algs,
+     fst (step w (CallJwsVerify k algorithms (RFresh c allowed) algs)) =
+     VUnit (do ok <- jws_verify_members good_sig w allowed algs;
+            if ok then Ok tt else Err (EJose BadSignatureError))) /\
+  (forall w k algorithms i o algs, nth_error (w_regs w) i = Some o ->
+     fst (step w (CallJwsSign k algorithms (RRef i) algs)) =
+     VUnit (runit (gate_all (jws_member_gate w (ro_allowed o)) algs)) /\
+     fst (step w (CallJwsVerify k algorithms (RRef i) algs)) =
+     VUnit (do ok <- jws_verify_members good_sig w (ro_allowed o) algs;
+            if ok then Ok tt else Err (EJose BadSignatureError))).
+Proof. exact registry_kept_7797. Qed.
+
+Example c05_7797_registry_kept_instance :
+  fst (step w0 (CallJwsSign (K7797 true) PNone (RFresh RcJws (PList [pname "HS512"])) [pname "HS256"])) = VUnit unsupported /\
+  fst (step w0 (CallJwsSign (K7797 true) PNone (RFresh RcJws (PList [pname "HS512"])) [pname "HS512"])) = VUnit (Ok tt) /\
+  fst (step w0 (CallJwsVerify (K7797 true) PNone (RFresh RcJws (PList [pname "HS512"])) [pname "HS512"])) = VUnit (Ok tt) /\
+  fst (step w0 (CallJwsSign (K7797 true) (PList [pname "HS256"]) (RFresh RcJwsSub (PList [pname "HS512"])) [pname "HS256"])) = VUnit unsupported /\
+  fst (step w0 (CallJwsSign (K7797 true) PNone RAbsent [pname "HS256"])) = VUnit (Ok tt) /\
+  fst (step w0 (CallJwsSign (K7797 true) PNone RAbsent [pname "HS512"])) = VUnit unsupported.
+Proof. exact registry_kept_7797_instance. Qed.
+
 (* ---- both algorithms= and registry= given (the property text does not order them):
         JWS entry points use the registry and ignore the list, JWE entry points use
         the non-empty list and ignore the registry; witnesses on w0 ---- *)
@@ -341,6 +376,7 @@ Print Assumptions c05_history.
 Print Assumptions c05_history_plain.
 Print Assumptions c05_history_effects_only.
 Print Assumptions c05_registry_arg_unchanged.
+Print Assumptions c05_7797_registry_kept.
 Print Assumptions c05_both_given.
 Print Assumptions c05_empty_list_is_default.
 Print Assumptions c05_readings_coincide.
